@@ -164,7 +164,7 @@ func hmExecSet(hm *HashMap, values []r.Element) (r.Element, error) {
 	}
 	// key name
 	keyName := values[0].(*String).value
-	hm.AppendKVPair(KVPair{keyName, values[1]})
+	hm.AppendKVPair(KVPair{keyName, detachFrom(hm, values[1])})
 	return values[1], nil
 }
 
